@@ -82,6 +82,8 @@ type FuncSpec struct {
 	Opaque   bool // do not verify the body (contract only used by callers); listed as assumption
 	CSEnsures []Clause // critical-section postconditions: checked when a lock is released; old() = state at its acquisition
 	Rely      []Clause // assumed after every cond.Wait re-acquisition (interference assumption, listed in evidence)
+	Covers    []Clause            // cover[label] expr: must be satisfiable at some return of the function
+	Before    map[string][]Clause // callee short name -> assertions that must hold (in this function's scope) whenever it calls that callee
 }
 
 type TypeSpec struct {
@@ -779,6 +781,9 @@ func (ss *SpecSet) ParseSpecFile(file, pkgPath string) error {
 		case "inline":
 			curF.Inline = true
 		case "opaque":
+			if rest != "" || curF == nil {
+				panic(fmt.Errorf("%s:%d: opaque is a clause of a func block and takes no arguments", file, lno))
+			}
 			curF.Opaque = true
 		case "purefn":
 			curF.Pure = true
@@ -847,6 +852,27 @@ func (ss *SpecSet) ParseSpecFile(file, pkgPath string) error {
 			}
 			lab, body := splitLabel(rest)
 			curF.CSEnsures = append(curF.CSEnsures, Clause{lab, mustExpr(file, lno, body), body})
+		case "cover":
+			if curF == nil {
+				panic(fmt.Errorf("%s:%d: cover outside func", file, lno))
+			}
+			lab, body := splitLabel(rest)
+			curF.Covers = append(curF.Covers, Clause{lab, mustExpr(file, lno, body), body})
+		case "before":
+			// before CALLEE [label] expr: checked at every call of the contracted function CALLEE made by this body
+			if curF == nil {
+				panic(fmt.Errorf("%s:%d: before outside func", file, lno))
+			}
+			sp := strings.IndexAny(rest, " \t")
+			if sp < 0 {
+				panic(fmt.Errorf("%s:%d: before CALLEE [label] expr", file, lno))
+			}
+			callee := rest[:sp]
+			lab, body := splitLabel(rest[sp:])
+			if curF.Before == nil {
+				curF.Before = map[string][]Clause{}
+			}
+			curF.Before[callee] = append(curF.Before[callee], Clause{lab, mustExpr(file, lno, body), body})
 		case "rely":
 			if curF == nil {
 				panic(fmt.Errorf("%s:%d: rely outside func", file, lno))
